@@ -7,7 +7,16 @@ from .common import CombClass, TermsT
 FC = "comb_spec_searcher/strategies/constructor/cartesian.py"
 FD = "comb_spec_searcher/strategies/constructor/disjoint.py"
 
-klass(FC, "CartesianProduct", fields={}, properties=["min_sizes", "max_sizes"])
+klass(FC, "CartesianProduct", fields={}, properties=["min_sizes", "max_sizes"],
+      ghost_fields={"g_children": Seq(CombClass)},
+      invariant=[
+          "len(self.min_child_sizes) == len(self.g_children)", "len(self.max_child_sizes) == len(self.g_children)",
+          "forall(lambda i: implies(0 <= i and i < len(self.g_children), \"n\" in self.min_child_sizes[i] and "
+          "self.min_child_sizes[i][\"n\"] == self.g_children[i].minimum_size_of_object()))",
+          "forall(lambda i: implies(0 <= i and i < len(self.g_children), "
+          "(\"n\" in self.max_child_sizes[i]) == self.g_children[i].is_atom() and "
+          "implies(self.g_children[i].is_atom(), self.max_child_sizes[i][\"n\"] == self.g_children[i].minimum_size_of_object())))",
+          ])
 klass(FC, "Quotient", fields={"idx": Int, "number_of_children": Int, "_min_sizes": Seq(Int),
                               "_max_sizes": Seq(Opt(Int)), "_parent_shift": Int})
 klass(FD, "DisjointUnion", fields={"number_of_children": Int})
@@ -26,14 +35,19 @@ def _cp_max(ex, st, c):
 spec_fn("cp_min_sizes", _cp_min)
 spec_fn("cp_max_sizes", _cp_max)
 
-_TRUST = ("min_child_sizes/max_child_sizes are tuples of string-keyed dictionaries built in __init__; the getter is "
-          "not verified (dictionary displays inside comprehensions are outside the subset). Assumed: a deterministic "
-          "tuple per constructor; that entry i equals children[i].minimum_size_of_object() is checked by the bounded "
-          "provider-trace monitor, not proved")
-contract(FC, "CartesianProduct.min_sizes", props=["C10", "C09"], verify=False, trusted_reason=_TRUST,
-         params={"self": Obj("CartesianProduct")}, returns=Seq(Int), ensures=["result == cp_min_sizes(self)"])
-contract(FC, "CartesianProduct.max_sizes", props=["C10", "C09"], verify=False, trusted_reason=_TRUST,
-         params={"self": Obj("CartesianProduct")}, returns=Seq(Opt(Int)), ensures=["result == cp_max_sizes(self)"])
+# ghost field g_children: the children the constructor was built for (set by a ghost statement at the end of __init__)
+_GMIN = "tuple(c.minimum_size_of_object() for c in self.g_children)"
+contract(FC, "CartesianProduct.min_sizes", props=["C10", "C09"],
+         params={"self": Obj("CartesianProduct")}, returns=Seq(Int),
+         ensures=["len(result) == len(self.g_children)",
+                  "forall(lambda i: implies(0 <= i and i < len(result), result[i] == self.g_children[i].minimum_size_of_object()))"],
+         modifies=[])
+contract(FC, "CartesianProduct.max_sizes", props=["C10", "C09"],
+         params={"self": Obj("CartesianProduct")}, returns=Seq(Opt(Int)),
+         ensures=["len(result) == len(self.g_children)",
+                  "forall(lambda i: implies(0 <= i and i < len(result), result[i] == "
+                  "ite(self.g_children[i].is_atom(), self.g_children[i].minimum_size_of_object(), None)))"],
+         modifies=[])
 
 contract(FC, "CartesianProduct.params_value_pairs_combinations", props=["C10"], inline=True, verify=False,
          trusted_reason="inlined into its callers (its real body is executed symbolically there)",
@@ -41,14 +55,19 @@ contract(FC, "CartesianProduct.params_value_pairs_combinations", props=["C10"], 
 
 _IDS = ["forall(lambda j: implies(0 <= j and j < len(subterms), subterms[j] == j))", "parent_terms == -1"]
 
+_MS_G = "tuple(c.minimum_size_of_object() for c in self.g_children)"
+_MS_CODE = 'last_result("CartesianProduct.min_sizes")'
 contract(FC, "CartesianProduct.get_terms", props=["C10"], lenient=True,
          params={"self": Obj("CartesianProduct"), "parent_terms": Fun("terms"), "subterms": Seq(Fun("terms")), "n": Int},
-         requires=_IDS + ["len(subterms) == len(cp_min_sizes(self))", "len(cp_max_sizes(self)) == len(subterms)"],
+         requires=_IDS + ["len(subterms) == len(self.g_children)"],
          pure_calls=["_new_param"],
          provider_requires={"terms": [
              "idx >= 0 and idx < len(subterms)",        # never the parent's own terms, only children
-             "m <= n - (sum(cp_min_sizes(self)) - cp_min_sizes(self)[idx])"]},
-         provider_hints={"terms": ["use lemma_part_bound(sizes, cp_min_sizes(self), _ci)"]},
+             # child i is asked only for sizes <= n - shifts()[i], where (CartesianProductStrategy.shifts)
+             # shifts()[i] = sum of the children's minimum sizes - its own
+             f"m <= n - (sum({_MS_G}) - self.g_children[idx].minimum_size_of_object())"]},
+         provider_hints={"terms": [f"use lemma_part_bound(sizes, {_MS_CODE}, _ci)",
+                                   f"use lemma_sum_pointwise({_MS_CODE}, {_MS_G})"]},
          notes="child i is asked only for sizes <= n - (sum of minimum sizes - its own) = n - shifts[i]")
 
 contract(FD, "DisjointUnion.get_terms", props=["C10"], lenient=True,
@@ -241,3 +260,39 @@ contract(FD, "DisjointUnion.get_sub_objects", props=["C07"], lenient=True,
                         modifies=["*res"])},
          modifies=["all:List(List(Opt(CombObj)))", "all:List(Opt(CombObj))"],
          notes="each yielded tuple puts the objects of exactly one child at that child's position")
+
+# ------------------------------------------------------------------ constructors establish what get_terms relies on
+_MS = "tuple(c.minimum_size_of_object() for c in children)"
+contract(FC, "Quotient.__init__", props=["C10"], lenient=True,
+         params={"self": Obj("Quotient"), "parent": CombClass, "children": Seq(CombClass), "idx": Int},
+         requires=["0 <= idx", "idx < len(children)"],
+         pure_calls=["_build_parent_param_map"], self_invariant=False,
+         ensures=_QINV + [
+             "self.idx == idx", "len(self._min_sizes) == len(children)",
+             "forall(lambda i: implies(0 <= i and i < len(children), self._min_sizes[i] == children[i].minimum_size_of_object()))",
+             "forall(lambda i: implies(0 <= i and i < len(children), self._max_sizes[i] == "
+             "ite(children[i].is_atom(), children[i].minimum_size_of_object(), None)))"],
+         modifies=["*self"],
+         notes="the fields the reverse-product discipline is stated over are the children's minimum sizes (atoms: also "
+               "maximum), and _parent_shift is the product shift of the counted child")
+
+REG.classes["CartesianProduct"].fields.update({"min_child_sizes": Seq(Dict(Str, Int)), "max_child_sizes": Seq(Dict(Str, Int)),
+                                               "parent_parameters": Seq(Str)})
+opaque_method("CombClass", "get_minimum_value", Int, args=[Str])
+_CP_INV = ["len(self.min_child_sizes) == len(children)", "len(self.max_child_sizes) == len(children)",
+           "forall(lambda i: implies(0 <= i and i < len(children), \"n\" in self.min_child_sizes[i] and "
+           "self.min_child_sizes[i][\"n\"] == children[i].minimum_size_of_object()))",
+           "forall(lambda i: implies(0 <= i and i < len(children), (\"n\" in self.max_child_sizes[i]) == children[i].is_atom() "
+           "and implies(children[i].is_atom(), self.max_child_sizes[i][\"n\"] == children[i].minimum_size_of_object())))"]
+contract(FC, "CartesianProduct.__init__", props=["C10", "C09"], lenient=True,
+         params={"self": Obj("CartesianProduct"), "parent": CombClass, "children": Seq(CombClass)},
+         requires=["forall(lambda j: implies(0 <= j and j < len(parent.extra_parameters), parent.extra_parameters[j] != \"n\"))"],
+         pure_calls=["_build_children_param_map"], self_invariant=False,
+         ghost_stmts={"exit": ["self.g_children = children"]},
+         ensures=_CP_INV + ["self.g_children == children"],
+         loops={0: dict(invariant=["True"]),
+                1: dict(invariant=_CP_INV, modifies=["all:Dict(Str, Int)"]),
+                2: dict(invariant=_CP_INV, modifies=["all:Dict(Str, Int)"])},
+         modifies=["*self", "all:Dict(Str, Int)"],
+         notes="\"n\" is reserved: the size entries of the per-child dictionaries are the children's minimum sizes "
+               "(and, for atoms only, their maximum)")
